@@ -1,4 +1,5 @@
-(* Model of how semantic-action references ($name, $N, $$, ${x.offset}, ${x.endoffset}) are bound:
+(* Model of how semantic-action references ($name, $N, $$, ${first()}, ${last()}, ${x.offset}, ${x.endoffset})
+   are bound:
      compiler/syntax.go   convertPart / allocatePos / pushName / pushRule / popRule   -> [convert]
      syntax/expand.go     expandExpr (Optional, Sequence, Choice, Alias)              -> [expand], [pick]
      compiler/compiler.go traverse (actualPos, pending mid-rule command, numRefs)    -> [traverse], [run]
@@ -190,9 +191,11 @@ Inductive val := VNil | V (id : N).
 Record entry := mkE { e_val : val; e_off : Z; e_end : Z }.
 
 Inductive arg := ANil | AM1 | AVal (id : N) | AInt (z : Z) | AErr (why : N).
-(* AErr: 1 index out of range, 2 unknown name, 3 value of a span, 4 stack underflow, 5 no args, 6 children *)
+(* AErr: 1 index out of range, 2 unknown name, 3 value of a span, 4 stack underflow, 5 no args, 6 children,
+         7 first()/last() hit an entry without a position ("internal error: cannot find the position for index"),
+         8 first()/last() given to ActionVars.resolve (never happens: goParserAction handles them itself) *)
 
-Inductive rref := RNum (n : nat) | RName (nm : name) | RLeft.
+Inductive rref := RNum (n : nat) | RName (nm : name) | RLeft | RFirst | RLast.
 Inductive prop := PValue | POffset | PEndoffset.
 
 Definition remap := list (nat * nat).   (* actualPos: position -> index; latest binding first *)
@@ -211,6 +214,7 @@ Definition last_of (l : list nat) (d : nat) : nat := last l d.
 Definition resolve (ca : cmdargs) (rm : remap) (r : rref) : resolved :=
   match r with
   | RLeft => ResLeft
+  | RFirst | RLast => ResErr 8
   | RNum n =>
       let pos := S n in
       if (ca_maxpos ca <=? pos) then ResErr 1
@@ -235,6 +239,21 @@ Definition resolve (ca : cmdargs) (rm : remap) (r : rref) : resolved :=
       end
   end.
 
+(* gen/funcs.go reverseLookup(i, Remap) != 0: some position is bound to index i *)
+Definition has_pos (rm : remap) (i : nat) : bool := existsb (fun x => Nat.eqb (snd x) i) rm.
+
+(* the switch at the head of goParserAction's loop: left(), first(), last() are decided there from SymRefCount
+   (first() = index 0, last() = index SymRefCount-1, -1 when the rule has pushed nothing), everything else
+   goes through ActionVars.Resolve; then the "pos == 0 && index >= 0" reverse lookup, which fails when the
+   first / last entry is a mid-rule nonterminal or the recursive reference of a list rule *)
+Definition locate (ca : cmdargs) (rm : remap) (count : nat) (r : rref) : resolved :=
+  match r with
+  | RFirst => if count =? 0 then ResAbsent else if has_pos rm 0 then ResAt 0 0 else ResErr 7
+  | RLast => if count =? 0 then ResAbsent
+             else if has_pos rm (count - 1) then ResAt (count - 1) (count - 1) else ResErr 7
+  | _ => resolve ca rm r
+  end.
+
 (* stack[len(stack)-k] ; the stack is bottom first *)
 Definition slot (stack : list entry) (k : nat) : option entry :=
   if (k =? 0) || (length stack <? k) then None else nth_error stack (length stack - k).
@@ -247,7 +266,7 @@ Definition entry_arg (e : entry) (pr : prop) : arg :=
 (* goParserAction for one reference, evaluated on the run-time stack; count = SymRefCount *)
 Definition eval_ref (ca : cmdargs) (rm : remap) (count : nat) (stack : list entry) (lhs : entry)
                     (r : rref) (pr : prop) : arg :=
-  match resolve ca rm r with
+  match locate ca rm count r with
   | ResErr w => AErr w
   | ResLeft => entry_arg lhs pr
   | ResAbsent => match pr with PValue => ANil | _ => AM1 end
